@@ -197,6 +197,21 @@ int main(void)
     } else if (!strcmp(c, "include")) {
       int r = gd_include(D, tok[1], atoi(tok[2]), strtoul(tok[3], NULL, 0));
       printf("include %d %d\n", r, gd_error(D));
+    } else if (!strcmp(c, "add_raw")) {
+      /* add_raw name type spf frag : gd_add_raw */
+      int r = gd_add_raw(D, tok[1], T[atoi(tok[2])], (unsigned)atoi(tok[3]), atoi(tok[4]));
+      printf("add_raw %d\n", r);
+    } else if (!strcmp(c, "add_entry")) {
+      /* add_entry name type spf frag : gd_add with a gd_entry_t */
+      gd_entry_t E;
+      memset(&E, 0, sizeof E);
+      E.field = tok[1];
+      E.field_type = GD_RAW_ENTRY;
+      E.fragment_index = atoi(tok[4]);
+      E.EN(raw,data_type) = T[atoi(tok[2])];
+      E.EN(raw,spf) = (unsigned)atoi(tok[3]);
+      int r = gd_add(D, &E);
+      printf("add_entry %d\n", r);
     } else if (!strcmp(c, "addspec")) {
       /* addspec frag rest-of-line-tokens joined by blanks */
       char spec[4096]; int i; spec[0] = 0;
